@@ -1,0 +1,24 @@
+//go:build verif
+// +build verif
+
+package xmpp
+
+// Verification hook (build tag "verif" only, add-only): a client XMPPTransport that
+// is already connected over a caller-supplied net.Conn, so that a harness can observe
+// the individual conn.Write calls made by Ping and script their results.
+
+import (
+	"net"
+
+	"gosrc.io/xmpp/stanza"
+)
+
+func VerifXMPPTransportOnConn(conn net.Conn, connectTimeout int) *XMPPTransport {
+	return &XMPPTransport{
+		Config:        TransportConfiguration{Domain: "localhost", ConnectTimeout: connectTimeout},
+		openStatement: clientStreamOpen,
+		conn:          conn,
+		readWriter:    conn,
+		closeChan:     make(chan stanza.StreamClosePacket),
+	}
+}
